@@ -1,0 +1,118 @@
+//go:build verif
+
+package parser
+
+import (
+	"fmt"
+	"os"
+	"path/filepath"
+	"sync"
+
+	"github.com/yuin/goldmark/ast"
+	"github.com/yuin/goldmark/text"
+)
+
+// VerifRecorder returns a hook (to be installed as VerifHook) that writes the block-phase
+// events of every Parse call as JSON lines: one trace number per call, small integers for
+// nodes, scalars only. Verification builds only.
+func VerifRecorder(write func(line []byte)) func(ev string, args ...interface{}) {
+	type call struct {
+		t   int
+		ids map[ast.Node]int
+	}
+	var mu sync.Mutex
+	calls := map[text.Reader]*call{}
+	seq := 0
+	id := func(c *call, n ast.Node) int {
+		if n == nil {
+			return 0
+		}
+		v, ok := c.ids[n]
+		if !ok {
+			v = len(c.ids) + 1
+			c.ids[n] = v
+		}
+		return v
+	}
+	line := func(r text.Reader) int {
+		l, _ := r.Position()
+		return l
+	}
+	return func(ev string, args ...interface{}) {
+		mu.Lock()
+		defer mu.Unlock()
+		var rd text.Reader
+		switch ev {
+		case "ParseEnter", "ParseReturn":
+			rd, _ = args[1].(text.Reader)
+		case "Open", "Continue", "ParaContinue", "Close", "EndOfInput":
+			rd, _ = args[0].(text.Reader)
+		default:
+			return
+		}
+		if rd == nil {
+			return
+		}
+		c := calls[rd]
+		if ev == "ParseEnter" {
+			seq++
+			c = &call{t: seq, ids: map[ast.Node]int{}}
+			calls[rd] = c
+			write([]byte(fmt.Sprintf(`{"t":%d,"ev":"ParseEnter"}`, c.t)))
+			return
+		}
+		if c == nil {
+			return
+		}
+		switch ev {
+		case "Open":
+			node, _ := args[2].(ast.Node)
+			parent, _ := args[5].(ast.Node)
+			kind := ""
+			if node != nil {
+				kind = node.Kind().String()
+			}
+			write([]byte(fmt.Sprintf(`{"t":%d,"ev":"Open","node":%d,"parent":%d,"kind":%q,"same":%v,"st":%d}`,
+				c.t, id(c, node), id(c, parent), kind, line(rd) == args[3].(int), args[4].(int))))
+		case "Continue":
+			node, _ := args[2].(ast.Node)
+			write([]byte(fmt.Sprintf(`{"t":%d,"ev":"Continue","node":%d,"ln":%d,"same":%v,"st":%d}`,
+				c.t, id(c, node), args[3].(int), line(rd) == args[3].(int), args[4].(int))))
+		case "ParaContinue":
+			node, _ := args[2].(ast.Node)
+			write([]byte(fmt.Sprintf(`{"t":%d,"ev":"ParaContinue","node":%d,"st":%d}`, c.t, id(c, node), args[3].(int))))
+		case "Close":
+			node, _ := args[1].(ast.Node)
+			write([]byte(fmt.Sprintf(`{"t":%d,"ev":"Close","node":%d,"idx":%d}`, c.t, id(c, node), args[2].(int))))
+		case "EndOfInput":
+			blocks, _ := args[1].([]Block)
+			s := "["
+			for i, b := range blocks {
+				if i > 0 {
+					s += ","
+				}
+				s += fmt.Sprint(id(c, b.Node))
+			}
+			write([]byte(fmt.Sprintf(`{"t":%d,"ev":"EndOfInput","open":%s]}`, c.t, s)))
+		case "ParseReturn":
+			write([]byte(fmt.Sprintf(`{"t":%d,"ev":"ParseReturn"}`, c.t)))
+			delete(calls, rd)
+		}
+	}
+}
+
+// With VERIF_TRACE_DIR set, a verification build records every Parse of the process into
+// <dir>/parser.<pid>.ndjson: this is how the repository's own tests are traced unchanged.
+func init() {
+	dir := os.Getenv("VERIF_TRACE_DIR")
+	if dir == "" {
+		return
+	}
+	f, err := os.Create(filepath.Join(dir, fmt.Sprintf("parser.%d.ndjson", os.Getpid())))
+	if err != nil {
+		return
+	}
+	VerifHook = VerifRecorder(func(line []byte) {
+		f.Write(append(line, '\n'))
+	})
+}
